@@ -1,6 +1,8 @@
 package base
 
 import (
+	"strconv"
+
 	"github.com/relex/gotils/promexporter/promext"
 	"github.com/relex/gotils/promexporter/promreg"
 	"github.com/relex/slog-agent/util"
@@ -110,8 +112,11 @@ func (pcounter *LogProcessCounterSet) RegisterCustomCounter(label string) func(l
 func (pcounter *LogProcessCounterSet) SelectMetricKeySet(record *LogRecord) *LogInputCounterSet {
 	tempKeys := pcounter.metricKeyExtractor.Extract(record)
 
+	// prefix each value with its length, or different key sets such as ("ab","c") and ("a","bc") would share the same counters
 	tempMergedKey := pcounter.mergeKeyBuffer
 	for _, tkey := range tempKeys {
+		tempMergedKey = strconv.AppendInt(tempMergedKey, int64(len(tkey)), 10)
+		tempMergedKey = append(tempMergedKey, ':')
 		tempMergedKey = append(tempMergedKey, tkey...)
 	}
 	pcounter.mergeKeyBuffer = tempMergedKey[:0]
